@@ -17,8 +17,11 @@ GenNext == /\ Next
            /\ hist' = Append(hist, Compact(last'))
            /\ script' = IF chosen'.name # "-" THEN Append(script, chosen') ELSE script
 GenSpec == GenInit /\ [][GenNext]_gvars
-\* one witness behaviour per distinct (model state, last event, item chosen)
-GenView == vars
+\* one witness behaviour per distinct (model state, last event, item chosen); for the focus group also per
+\* distinct history of method lists received (a change that adds hidden state -- e.g. keeps using an older
+\* list -- is only exposed by reaching the same model state through different pasts)
+ListHist == LET F == SelectSeq(hist, LAMBDA e : e.ev = "r" /\ e.t = "failure") IN [i \in 1..Len(F) |-> F[i].methods]
+GenView == IF cn \in FocusNames THEN <<vars, ListHist>> ELSE <<vars, <<>>>>
 EmitCase == (Done /\ srv.name = "") => PrintT("TRACE " \o ToJson([cfg |-> cn, auth |-> Auth, script |-> script, events |-> hist,
                                                    bad |-> o.bad, res |-> c.res]))
 EmitGrid == (Done /\ srv.name # "") => PrintT("TRACE " \o ToJson([cfg |-> cn, auth |-> Auth, srv |-> srv.name, server |-> SrvCfg, events |-> hist,
